@@ -7,7 +7,8 @@ pub enum MergeK { Min, Max, NoMerge }
 
 #[derive(Clone, Debug, Hash)]
 pub struct Sig {
-    pub ctors: Vec<(String, usize)>,          // constructors over sort E: (name, arity); table id = index
+    pub ctors: Vec<(String, usize)>,          // constructors into sort E: (name, arity); table id = index
+    pub kinds: Vec<Vec<bool>>,                // per constructor, per argument: true = sort E, false = i64 (a literal in every pattern)
     pub funcs: Vec<(String, MergeK)>,         // (function f (E) i64 ..); table id = ctors.len() + index
     pub rels: Vec<(String, usize)>,           // (relation R (E ..)); table id after the functions
 }
@@ -20,7 +21,7 @@ impl Sig {
     }
     pub fn header(&self) -> String {
         let mut s = String::from("(sort E)\n");
-        for (n, a) in &self.ctors { s.push_str(&format!("(constructor {n} ({}) E)\n", vec!["E"; *a].join(" "))); }
+        for (c, (n, _)) in self.ctors.iter().enumerate() { s.push_str(&format!("(constructor {n} ({}) E)\n", self.kinds[c].iter().map(|k| if *k { "E" } else { "i64" }).collect::<Vec<_>>().join(" "))); }
         for (n, m) in &self.funcs { s.push_str(&format!("(function {n} (E) i64 {})\n", match m { MergeK::Min => ":merge (min old new)", MergeK::Max => ":merge (max old new)", MergeK::NoMerge => ":no-merge" })); }
         for (n, a) in &self.rels { s.push_str(&format!("(relation {n} ({}))\n", vec!["E"; *a].join(" "))); }
         s.push_str("(ruleset r0)\n(ruleset r1)\n");
@@ -28,7 +29,7 @@ impl Sig {
     }
     pub fn model_header(&self) -> Vec<String> {
         let mut v = vec!["eg new".to_string()];
-        for (_, a) in &self.ctors { v.push(format!("eg decl {} i unionId", if *a == 0 { "-".to_string() } else { "i".repeat(*a) })); }
+        for (c, (_, a)) in self.ctors.iter().enumerate() { v.push(format!("eg decl {} i unionId", if *a == 0 { "-".to_string() } else { self.kinds[c].iter().map(|k| if *k { 'i' } else { 'b' }).collect::<String>() })); }
         for (_, m) in &self.funcs { v.push(format!("eg decl i b {}", match m { MergeK::Min => "min", MergeK::Max => "max", MergeK::NoMerge => "assertEq" })); }
         for (_, a) in &self.rels { v.push(format!("eg decl {} b unit", "i".repeat(*a))); }
         v
@@ -36,7 +37,7 @@ impl Sig {
 }
 
 #[derive(Clone, Debug, Hash, PartialEq, Eq)]
-pub enum Pat { Var(usize), App(usize, Vec<Pat>) }
+pub enum Pat { Var(usize), App(usize, Vec<Pat>), Lit(i64) }
 
 #[derive(Clone, Debug, Hash, PartialEq, Eq)]
 pub enum IVal { Var(usize), Lit(i64) }
@@ -61,6 +62,7 @@ pub enum Cmd {
 pub fn pat_text(sig: &Sig, p: &Pat) -> String {
     match p {
         Pat::Var(i) => format!("x{i}"),
+        Pat::Lit(l) => l.to_string(),
         Pat::App(c, args) => if args.is_empty() { format!("({})", sig.ctors[*c].0) } else { format!("({} {})", sig.ctors[*c].0, args.iter().map(|a| pat_text(sig, a)).collect::<Vec<_>>().join(" ")) },
     }
 }
@@ -107,24 +109,27 @@ impl Flat {
     fn pat_query(&mut self, p: &Pat, atoms: &mut Vec<String>) -> String {
         match p {
             Pat::Var(i) => format!("v{i}"),
+            Pat::Lit(l) => l.to_string(),
             Pat::App(c, args) => { let a: Vec<String> = args.iter().map(|x| self.pat_query(x, atoms)).collect(); let t = self.fresh(); atoms.push(format!("tbl {c} {} -> v{t}", a.join(" "))); format!("v{t}") }
         }
     }
     fn pat_query_root(&mut self, p: &Pat, root: &str, atoms: &mut Vec<String>) {
         match p {
             Pat::Var(i) => atoms.push(format!("prim eq v{i} {root}")),
+            Pat::Lit(l) => atoms.push(format!("prim eq {l} {root}")),
             Pat::App(c, args) => { let a: Vec<String> = args.iter().map(|x| self.pat_query(x, atoms)).collect(); atoms.push(format!("tbl {c} {} -> {root}", a.join(" "))); }
         }
     }
     fn pat_action(&mut self, p: &Pat, acts: &mut Vec<String>) -> String {
         match p {
             Pat::Var(i) => format!("v{i}"),
+            Pat::Lit(l) => l.to_string(),
             Pat::App(c, args) => { let a: Vec<String> = args.iter().map(|x| self.pat_action(x, acts)).collect(); let t = self.fresh(); acts.push(format!("call {t} {c} {}", a.join(" "))); format!("v{t}") }
         }
     }
 }
 
-fn max_var_pat(p: &Pat) -> usize { match p { Pat::Var(i) => *i + 1, Pat::App(_, a) => a.iter().map(max_var_pat).max().unwrap_or(0) } }
+fn max_var_pat(p: &Pat) -> usize { match p { Pat::Var(i) => *i + 1, Pat::Lit(_) => 0, Pat::App(_, a) => a.iter().map(max_var_pat).max().unwrap_or(0) } }
 fn max_var_ival(v: &IVal) -> usize { match v { IVal::Var(i) => *i + 1, _ => 0 } }
 fn max_var_atom(a: &BodyAtom) -> usize { match a { BodyAtom::Eq(v, p) => (*v + 1).max(max_var_pat(p)), BodyAtom::Bare(p) => max_var_pat(p), BodyAtom::Func(_, p, v) => max_var_pat(p).max(max_var_ival(v)), BodyAtom::Rel(_, ps) => ps.iter().map(max_var_pat).max().unwrap_or(0), BodyAtom::Guard(_, a, b) => max_var_ival(a).max(max_var_ival(b)) } }
 fn max_var_act(a: &HeadAct) -> usize { match a { HeadAct::Term(p) | HeadAct::Subsume(p) => max_var_pat(p), HeadAct::Union(a, b) => max_var_pat(a).max(max_var_pat(b)), HeadAct::Set(_, p, v) => max_var_pat(p).max(max_var_ival(v)), HeadAct::Rel(_, ps) => ps.iter().map(max_var_pat).max().unwrap_or(0), HeadAct::Panic => 0 } }
@@ -198,13 +203,17 @@ pub fn gen_sig(rng: &mut Rng) -> Sig {
     if rng.chance(1, 3) { funcs.push(("hi".to_string(), MergeK::Max)); }
     let mut rels = vec![];
     if rng.chance(1, 2) { rels.push(("R".to_string(), 1 + rng.below(2))); }
-    Sig { ctors, funcs, rels }
+    let mut kinds: Vec<Vec<bool>> = ctors.iter().map(|c| vec![true; c.1]).collect();
+    // constructors with base-value columns (mixed keys: the id columns are rebuilt, the base columns compared literally)
+    if rng.chance(1, 2) { ctors.push(("N".into(), 1)); kinds.push(vec![false]); }
+    if rng.chance(1, 3) { ctors.push(("P".into(), 2)); kinds.push(vec![true, false]); }
+    Sig { ctors, kinds, funcs, rels }
 }
 
 pub fn gen_ground(rng: &mut Rng, sig: &Sig, depth: usize) -> Pat {
     let cands: Vec<usize> = (0..sig.ctors.len()).filter(|c| depth > 0 || sig.ctors[*c].1 == 0).collect();
     let c = cands[rng.below(cands.len())];
-    Pat::App(c, (0..sig.ctors[c].1).map(|_| gen_ground(rng, sig, depth.saturating_sub(1))).collect())
+    Pat::App(c, (0..sig.ctors[c].1).map(|j| if sig.kinds[c][j] { gen_ground(rng, sig, depth.saturating_sub(1)) } else { Pat::Lit(rng.range(0, 3)) }).collect())
 }
 
 /// pattern over variables 0..nv (non-linear patterns allowed)
@@ -212,11 +221,11 @@ pub fn gen_pat(rng: &mut Rng, sig: &Sig, depth: usize, nv: usize) -> Pat {
     if depth == 0 || rng.chance(1, 3) { return if rng.chance(3, 4) || nv == 0 { Pat::Var(rng.below(nv.max(1))) } else { gen_ground(rng, sig, 0) }; }
     let cands: Vec<usize> = (0..sig.ctors.len()).filter(|c| sig.ctors[*c].1 > 0).collect();
     let c = cands[rng.below(cands.len())];
-    Pat::App(c, (0..sig.ctors[c].1).map(|_| gen_pat(rng, sig, depth - 1, nv)).collect())
+    Pat::App(c, (0..sig.ctors[c].1).map(|j| if sig.kinds[c][j] { gen_pat(rng, sig, depth - 1, nv) } else { Pat::Lit(rng.range(0, 3)) }).collect())
 }
 
-fn vars_of(p: &Pat, out: &mut Vec<usize>) { match p { Pat::Var(i) => if !out.contains(i) { out.push(*i) }, Pat::App(_, a) => a.iter().for_each(|x| vars_of(x, out)) } }
-fn size_of(p: &Pat) -> usize { match p { Pat::Var(_) => 1, Pat::App(_, a) => 1 + a.iter().map(size_of).sum::<usize>() } }
+fn vars_of(p: &Pat, out: &mut Vec<usize>) { match p { Pat::Var(i) => if !out.contains(i) { out.push(*i) }, Pat::Lit(_) => {}, Pat::App(_, a) => a.iter().for_each(|x| vars_of(x, out)) } }
+fn size_of(p: &Pat) -> usize { match p { Pat::Var(_) | Pat::Lit(_) => 1, Pat::App(_, a) => 1 + a.iter().map(size_of).sum::<usize>() } }
 
 /// a pattern using only the given variables, no larger than `max_size` (keeps rewriting bounded)
 fn gen_rhs(rng: &mut Rng, sig: &Sig, vars: &[usize], max_size: usize) -> Pat {
@@ -230,12 +239,12 @@ fn gen_pat_over(rng: &mut Rng, sig: &Sig, depth: usize, vars: &[usize]) -> Pat {
     if depth == 0 || rng.chance(1, 3) { return if !vars.is_empty() && rng.chance(3, 4) { Pat::Var(vars[rng.below(vars.len())]) } else { gen_ground(rng, sig, 0) }; }
     let cands: Vec<usize> = (0..sig.ctors.len()).filter(|c| sig.ctors[*c].1 > 0).collect();
     let c = cands[rng.below(cands.len())];
-    Pat::App(c, (0..sig.ctors[c].1).map(|_| gen_pat_over(rng, sig, depth - 1, vars)).collect())
+    Pat::App(c, (0..sig.ctors[c].1).map(|j| if sig.kinds[c][j] { gen_pat_over(rng, sig, depth - 1, vars) } else { Pat::Lit(rng.range(0, 3)) }).collect())
 }
 
 pub fn gen_rewrite(rng: &mut Rng, sig: &Sig, allow_subsume: bool) -> Cmd {
     let mut lhs = gen_pat(rng, sig, 2, 3);
-    if matches!(lhs, Pat::Var(_)) { let cands: Vec<usize> = (0..sig.ctors.len()).filter(|c| sig.ctors[*c].1 > 0).collect(); let c = cands[rng.below(cands.len())]; lhs = Pat::App(c, (0..sig.ctors[c].1).map(|i| Pat::Var(i % 3)).collect()); }
+    if matches!(lhs, Pat::Var(_)) { let cands: Vec<usize> = (0..sig.ctors.len()).filter(|c| sig.ctors[*c].1 > 0).collect(); let c = cands[rng.below(cands.len())]; lhs = Pat::App(c, (0..sig.ctors[c].1).map(|i| if sig.kinds[c][i] { Pat::Var(i % 3) } else { Pat::Lit(1) }).collect()); }
     let mut vs = vec![]; vars_of(&lhs, &mut vs);
     let rhs = gen_rhs(rng, sig, &vs, size_of(&lhs));
     Cmd::Rewrite { rs: rng.below(2), lhs, rhs, subsume: allow_subsume && rng.chance(1, 5) }
@@ -248,7 +257,7 @@ fn as_app(sig: &Sig, p: Pat) -> Pat {
 
 pub fn gen_rule(rng: &mut Rng, sig: &Sig, idx: usize, allow_panic: bool) -> Cmd {
     // body: one or two constructor patterns, maybe a function lookup with a guard
-    let p1 = { let mut p = gen_pat(rng, sig, 2, 3); if matches!(p, Pat::Var(_)) { p = Pat::App(sig.ctors.len() - 1, (0..sig.ctors[sig.ctors.len() - 1].1).map(|i| Pat::Var(i % 3)).collect()); } p };
+    let p1 = { let mut p = gen_pat(rng, sig, 2, 3); if matches!(p, Pat::Var(_)) { let c = sig.ctors.len() - 1; p = Pat::App(c, (0..sig.ctors[c].1).map(|i| if sig.kinds[c][i] { Pat::Var(i % 3) } else { Pat::Lit(1) }).collect()); } p };
     let mut body = vec![BodyAtom::Eq(10, p1.clone())];
     let mut vs = vec![10]; vars_of(&p1, &mut vs);
     if rng.chance(1, 3) { let p2 = gen_pat_over(rng, sig, 1, &vs.iter().cloned().filter(|v| *v != 10).collect::<Vec<_>>()); if let Pat::App(..) = p2 { body.push(BodyAtom::Eq(11, p2)); vs.push(11); } }
